@@ -15,13 +15,17 @@ in float64/complex128; eps = machine epsilon of the case dtype):
     and therefore agrees with the dense column-by-column reference within (bound on |r|)/sigma_min(S) (checked explicitly).
 (c) silent-convergence class: float64/complex128, cond <= 10, default options:
       exactsolve/custom_exactsolve always; cg when every S is Hermitian positive definite; bicgstab and broyden1 when the field
-      of values of every S lies in the right half-plane (spd / normal spectra with small shifts) -- a ConvergenceWarning there is
+      of values of every S lies in a half-plane away from the origin: spd / normal spectra in the right half-plane with small
+      shifts, and -- complex128 -- spectra in a disc of condition number <= 10 turned by any angle theta around the origin
+      (eigenvalues exp(i theta)(1 + rho z)/(1 - rho)) and shifts e = exp(i theta)(-s + i t), 0 <= s <= 2, |t| <= 3, far off the real
+      axis (a real-axis-hugging spectrum hides every conjugation slip of a Krylov coefficient) -- a ConvergenceWarning there is
       a violation. gmres is not in the class (the statement excludes it), so only (a),(b) apply to it; spectra with <= n-2
       distinct eigenvalues make it converge silently so that (b) is exercised for it as well.
 (d) M supplied without E is ignored (documented warning) and changes nothing.
 """
 from __future__ import annotations
 
+import math
 import warnings
 
 import torch
@@ -33,19 +37,27 @@ from pbt.harness import Task, ok, violation, discard, xt_call
 
 PID = "C01"
 RULE = ("n in 1..16 (thorough 24), ncols 1..3, target batch rank 0..2 (dims 1..3) with independent sub-patterns for A,B,E,M; dtype "
-        "f32/f64/c128; spectrum kind {spd, indef, few_spd, normal_rhp, general, few_normal} with cond <= kappa in {2,10,100,1000}; "
-        "operator kind {dense, mv, mv_rmv, mv_mm, all, add, sub, scale, matmul, H.H, adjoint-of-adjoint, jac}; Hermitian flag on/off; "
-        "E mode {none, E, E+M, M only}; real/complex shifts; method {exactsolve, custom_exactsolve, cg, bicgstab, gmres, broyden1}; "
+        "f32/f64/c128; spectrum kind {spd, indef, few_spd, normal_rhp, general, few_normal; c128 also rot_disc, few_rot_disc = disc spectra turned by "
+        "theta in 0..359 degrees around the origin} with cond <= kappa in {2,10,100,1000}; real-valued A held in c128; "
+        "operator kind {dense, mv, mv_rmv, mv_mm, all, add, sub, scale, matmul, H.H, adjoint-of-adjoint, jac, tree = random expression "
+        "tree of depth <= 2 over {.H, scaling (either side), +, -, matmul (operands in either order)} with leaves {dense, matrix-free "
+        "with/without rmv/mm, Jacobian operator} whose value is the target matrix (labelled by its shape, e.g. tree:adj(sub))}; "
+        "Hermitian flag on/off (propagated through trees); "
+        "E mode {none, E, E+M, M only}; real/complex shifts, complex shifts with |Im e| up to 3 on half-plane spectra; task 'offaxis' "
+        "concentrates on c128 systems with spectra far off the real axis, n up to 24 in both tiers, mostly bicgstab; method {exactsolve, custom_exactsolve, cg, bicgstab, gmres, broyden1}; "
         "B columns / batch entries scaled by 10^k (k in -4..4), optionally one column in a 2-dimensional invariant subspace; options (rtol, atol, max_niter, resid_calc_every, posdef, preconditioners, f_tol, line_search); zero columns / all-zero B. Non-trivial = n>=2, B not "
         "identically zero and the call was silent (so the accuracy claim was actually decided); distinct by (method, E mode, kind, "
         "dtype, spectrum, batch class, n, in-class flag).")
 ASSUMPTIONS = [
     "dense reference and residuals evaluated in float64/complex128 with torch.linalg (LAPACK)",
     "rounding slack 1e3*n*eps*(|S||x|+|b|) per column; eps of the case dtype",
-    "E keeps every shifted matrix well conditioned: Hermitian PD A gets e<=0 (or small e), others |e| <= 0.3 sigma_min(A)/|M|",
+    "E keeps every shifted matrix well conditioned: Hermitian PD A gets e<=0 (or small e), others |e| <= 0.3 sigma_min(A)/|M|; "
+    "large shifts e = exp(i theta)(-s + i t) (s in [0,2], |t| <= eoff <= 3) only for spectra with field of values in Re(exp(-i theta) z) >= 1, "
+    "for which that of exp(-i theta)(A - e M) stays in Re >= 1 (sigma_min >= 1, cond <= kappa + 8)",
     "M is Hermitian positive definite with eigenvalues in [0.5, 2]",
     "B has O(1) entries, exactly-zero columns, or is scaled as a whole by 1e-9 / 1e6 together with atol=1e-16 (so that the early exit |B| <= atol must not trigger)",
-    "silent-convergence class restricted to float64/complex128, cond<=10, default options (or only posdef=False); n<=8 except direct methods and plain CG/BiCGSTAB on Hermitian positive definite systems (n<=24); broyden1 only for O(1) right-hand sides",
+    "silent-convergence class restricted to float64/complex128, cond<=10, default options (or only posdef=False); n<=8 except direct methods, plain CG/BiCGSTAB on Hermitian positive definite systems and BiCGSTAB on rotated-disc spectra / Hermitian PD A with large imaginary shifts (n<=24; measured on the unchanged tree: 0 warnings in 3400 such cases with n in 9..24, still 0 with n instead of int(1.5 n) iterations); broyden1 only for O(1) right-hand sides",
+    "expression trees: the constant parts P are unbatched O(1) random matrices (Hermitian under a Hermitian flag), products use P = 1.5 * unitary; the tree's matrix equals the target up to a few eps |P|, covered by the rounding slack",
 ]
 LEVEL_TEXT = ("Exploration over the product operator kind x method x E/M mode x batch pattern x dtype x spectrum with the method's own "
               "stopping test re-evaluated on the returned tensor against dense float64 matrices, plus the class in which a warning "
@@ -63,7 +75,10 @@ def build_problem(case, g=None):
     g = g or gen.seeded(case["seed"])
     dt = R.DT[case["dtype"]]
     n, ncols = case["n"], case["ncols"]
-    A = R.spectrum_matrix(g, case["bA"], n, dt, case["spec"], float(case["kappa"])).to(dt)
+    theta = math.radians(case.get("theta") or 0) if case["spec"] in R.ROTATED_SPECTRA else 0.0
+    # "areal": a real-valued matrix held in a complex dtype (real recipe, cast)
+    rdt = torch.float64 if (case.get("areal") and dt.is_complex and case["spec"] not in R.ROTATED_SPECTRA) else dt
+    A = R.spectrum_matrix(g, case["bA"], n, rdt, case["spec"], float(case["kappa"]), theta).to(dt)
     if case["spec"] in R.HERMITIAN_SPECTRA:
         A = 0.5 * (A + R.H(A))
     B = gen.randn(g, (*case["bB"], n, ncols), dt)
@@ -88,7 +103,12 @@ def build_problem(case, g=None):
             Ev = -2.0 * u if case["eneg"] else 0.3 * u / mnorm
         else:
             Ev = (2 * u - 1) * 0.3 / mnorm
-        if case["ecomplex"] and dt.is_complex:
+        if eoff_active(case):
+            # shifts far off the real axis: e = exp(i theta) (-s + i t), s in [0, 2], |t| <= eoff.  With the field of values of
+            # exp(-i theta) A in Re >= 1 and M Hermitian PD, that of exp(-i theta) (A - e M) stays in Re >= 1 + s/2
+            t = (2 * torch.rand((*case["bE"], ncols), generator=g, dtype=torch.float64) - 1) * float(case["eoff"])
+            Ev = torch.complex(-2.0 * u, t) * complex(math.cos(theta), math.sin(theta))
+        elif case["ecomplex"] and dt.is_complex:
             ph = torch.rand((*case["bE"], ncols), generator=g, dtype=torch.float64) * 6.283185307179586
             Ev = Ev * torch.exp(1j * ph)
         E = Ev.to(dt)
@@ -107,6 +127,12 @@ def build_problem(case, g=None):
     return A, B, E, M, g
 
 
+def eoff_active(case):
+    """complex shifts with a sizeable imaginary part: complex dtype, half-plane spectra, E present"""
+    return bool(case.get("eoff")) and case["dtype"] == "c128" and case["spec"] in R.HALFPLANE_SPECTRA and \
+        case["emode"] in ("E", "EM")
+
+
 def in_silent_class(case, flagged_hermitian):
     """systems on which a ConvergenceWarning is itself a violation (docstring (c))"""
     opts = case["opts"]
@@ -116,7 +142,7 @@ def in_silent_class(case, flagged_hermitian):
         return False
     m = case["method"]
     has_e = case["emode"] in ("E", "EM")
-    pd = case["spec"] in ("spd", "few_spd") and not (has_e and case["ecomplex"])      # every S Hermitian positive definite
+    pd = case["spec"] in ("spd", "few_spd") and not (has_e and case["ecomplex"]) and not eoff_active(case)      # every S Hermitian positive definite
     if m in DIRECT:
         return True
     if m == "cg":
@@ -130,11 +156,26 @@ def in_silent_class(case, flagged_hermitian):
         # on Hermitian PD systems BiCG coincides with CG (finite termination), claimed up to n = 24; otherwise n <= 8
         if pd and not normal_eq:
             return True
-        return n <= 8 and (normal_eq or case["spec"] in ("spd", "few_spd", "normal_rhp", "few_normal"))
+        if normal_eq:
+            return n <= 8
+        # spectra of every S inside a disc of condition number <= 10 anywhere around the origin, or on a segment parallel to the
+        # real axis (Hermitian PD matrix + shift with a large imaginary part): silent up to n = 24 (0 warnings in 3400
+        # exploratory cases with n in 9..24, and 0 in 600 with only n instead of int(1.5 n) iterations); sector spectra n <= 8
+        wide = case["spec"] in R.ROTATED_SPECTRA or (case["spec"] in ("spd", "few_spd") and eoff_active(case))
+        return case["spec"] in R.HALFPLANE_SPECTRA and n <= (24 if wide else 8)
     if m == "broyden1":
         # absolute f_tol = 1e-6: only claimed for O(1) right-hand sides
-        return n <= 8 and not opts and not case.get("bscale") and case["spec"] in ("spd", "few_spd", "normal_rhp", "few_normal")
+        return n <= 8 and not opts and not case.get("bscale") and case["spec"] in R.HALFPLANE_SPECTRA
     return False
+
+
+def offaxis_label(case):
+    """how far the spectra of the shifted matrices are turned away from the positive real axis (by construction)"""
+    if case["dtype"] != "c128":
+        return "real"
+    th = abs(((case.get("theta") or 0) + 180) % 360 - 180) if case["spec"] in R.ROTATED_SPECTRA else 0
+    lab = "theta<25" if th < 25 else ("theta<=155" if th <= 155 else "theta>155")
+    return lab + ("+eoff" if eoff_active(case) else "")
 
 
 def run_case(case):
@@ -152,7 +193,14 @@ def run_case(case):
     if kind == "jac" and (dt.is_complex or case["bA"]):
         kind = "mv_rmv"
     counter = {}
-    Aop = xt_call(R.make_operator, kind, A, herm and case["hflag"], g, counter, case["leaf"], _where="construct")
+    treelab = []
+    if kind == "tree":
+        Aop = xt_call(R.make_tree, case["tree"], A, herm and case["hflag"], g, counter, _where="construct")
+        kind = "tree:" + R.tree_signature(case["tree"])
+        lv = R.tree_leaves(case["tree"])
+        treelab = ["leaves=" + ("dense" if all(k == "dense" for k in lv) else ("jac" if "jac" in lv else "matrixfree"))]
+    else:
+        Aop = xt_call(R.make_operator, kind, A, herm and case["hflag"], g, counter, case["leaf"], _where="construct")
     Mop = None
     if M is not None:
         Mop = xt_call(R.make_leaf, case["mkind"], M, True, counter, _where="construct")
@@ -173,8 +221,8 @@ def run_case(case):
     cls = in_silent_class(case, bool(Aop.is_hermitian))
     mutate = case.get("mutate") if kind in R.LEAF_KINDS else None
     batchclass = "b%d%d%d%d" % (len(case["bA"]), len(case["bB"]), len(case["bE"]) if E is not None else 0, len(case["bM"]) if M is not None else 0)
-    labels = ["method=" + method, "emode=" + case["emode"], "kind=" + kind, "dtype=" + case["dtype"], "spec=" + case["spec"],
-              "batch=" + batchclass, "zero=" + case["zero"], "bscale=%s" % bool(case.get("bscale")), "easycol=%s" % bool(case.get("easycol")), "class=%s" % cls, "precond=%s" % pre, "opts=%s" % bool(case["opts"]), "mutate=%s" % mutate, "bglobal=%s" % case.get("bglobal")]
+    labels = ["method=" + method, "emode=" + case["emode"], "kind=" + kind, "dtype=" + case["dtype"], "spec=" + case["spec"], "offaxis=%s" % offaxis_label(case),
+              "batch=" + batchclass, "zero=" + case["zero"], "bscale=%s" % bool(case.get("bscale")), "easycol=%s" % bool(case.get("easycol")), "class=%s" % cls, "precond=%s" % pre, "opts=%s" % bool(case["opts"]), "mutate=%s" % mutate, "bglobal=%s" % case.get("bglobal")] + treelab
 
     if mutate:
         # history on the same operator objects: solve, change the operators' matrices in place (as an optimiser step or a
@@ -295,26 +343,50 @@ def run_case(case):
 # ------------------------------------------------------------------ strategy
 
 @st.composite
-def case_st(draw, tier="quick", methods=METHODS):
+def case_st(draw, tier="quick", methods=METHODS, focus=None):
+    """focus="offaxis": complex systems whose shifted matrices have their spectra far off the real axis (rotated discs,
+    shifts with large imaginary parts), larger n, mostly default options"""
     nmax = 16 if tier == "quick" else 24
-    n = draw(st.one_of(st.integers(1, 4), st.integers(1, 8), st.integers(1, 8), st.integers(9, nmax)))
+    if focus == "offaxis":
+        # up to 24 in both tiers: beyond n ~ 8 BiCGSTAB no longer lives on its finite-termination property (broyden1: min(n, 6) below)
+        n = draw(st.one_of(st.integers(2, 8), st.integers(9, 16), st.integers(17, 24)))
+    else:
+        n = draw(st.one_of(st.integers(1, 4), st.integers(1, 8), st.integers(1, 8), st.integers(9, nmax)))
     ncols = draw(st.integers(1, 3))
     batch = draw(R.batch_st(2))
     # coincidence of sizes (batch == n == ncols) is a known trouble spot: make it likely
     if draw(st.integers(0, 7)) == 0:
         k = draw(st.integers(1, 3))
         n, ncols, batch = k, k, [k] * draw(st.integers(1, 2))
-    method = draw(st.sampled_from(methods))
-    dtype = draw(st.sampled_from(["f64", "f64", "c128", "c128", "f32"]))
-    if method == "gmres":
-        spec = draw(st.sampled_from(["few_spd", "few_normal", "few_spd", "few_normal", "spd", "general"]))
+    if focus == "offaxis":
+        method = draw(st.sampled_from(["bicgstab", "bicgstab", "bicgstab", "bicgstab", "cg", "broyden1", "gmres", "exactsolve"]))
+        dtype = "c128"
+        spec = draw(st.sampled_from(["few_rot_disc"] if method == "gmres" else
+                                    ["rot_disc", "rot_disc", "rot_disc", "few_rot_disc", "spd", "normal_rhp", "few_normal"]))
+        kappa = draw(st.sampled_from([2, 10, 10]))
+        emode = draw(st.sampled_from(["none", "E", "E", "EM", "EM"]))
     else:
-        spec = draw(st.sampled_from(R.SPECTRA))
-    kappa = draw(st.sampled_from([2, 10, 10, 10, 100, 1000]))
-    kind = draw(st.sampled_from(R.KINDS))
-    emode = draw(st.sampled_from(["none", "none", "E", "E", "EM", "EM", "M"]))
+        method = draw(st.sampled_from(methods))
+        dtype = draw(st.sampled_from(["f64", "f64", "c128", "c128", "f32"]))
+        if method == "gmres":
+            spec = draw(st.sampled_from(["few_spd", "few_normal", "few_spd", "few_normal", "spd", "general"] +
+                                        (["few_rot_disc"] if dtype == "c128" else [])))
+        else:
+            spec = draw(st.sampled_from(R.SPECTRA + (R.ROTATED_SPECTRA if dtype == "c128" else ())))
+        kappa = draw(st.sampled_from([2, 10, 10, 10, 100, 1000]))
+        emode = draw(st.sampled_from(["none", "none", "E", "E", "EM", "EM", "M"]))
+    theta = draw(st.integers(0, 359)) if spec in R.ROTATED_SPECTRA else 0
+    # |Im e| up to eoff for half-plane spectra in complex arithmetic (see build_problem); 0 = the small shifts
+    eoff = draw(st.sampled_from([0, 0, 1, 3] if focus is None else [0, 1, 2, 3]))
+    areal = draw(st.integers(0, 3)) == 0
+    kind = draw(st.sampled_from(R.KINDS + ("tree",) * 6))
+    tree = draw(R.tree_st(2)) if kind == "tree" else None
+    if kind == "tree" and method == "broyden1" and draw(st.integers(0, 3)) != 0:
+        # broyden1 applies the operator thousands of times, and adjoints of matrix-free compositions are the slowest operators
+        # there are (column-by-column products, autograd adjoints): keep one in four of these combinations
+        method = draw(st.sampled_from(["cg", "bicgstab", "exactsolve", "custom_exactsolve"]))
     opts = {}
-    if draw(st.integers(0, 2)) == 0:
+    if draw(st.integers(0, 2 if focus is None else 5)) == 0:
         if method in KRYLOV:
             rt = [1e-3, 1e-4] if dtype == "f32" else [1e-4, 1e-6, 1e-8, 1e-10]
             if draw(st.booleans()):
@@ -361,12 +433,12 @@ def case_st(draw, tier="quick", methods=METHODS):
     if method == "broyden1":
         # its default budget is 100*(unknowns+1) iterations with a line search each: keep the systems small, and the absolute
         # f_tol makes badly scaled right-hand sides a different question (see in_silent_class)
-        n = min(n, 8)
+        n = min(n, 8 if focus is None else 6)
         bscale = None
     return {
         "n": n, "ncols": ncols, "batch": batch,
         "bA": bA, "bB": bB, "bE": bE, "bM": bM,
-        "dtype": dtype, "spec": spec, "kappa": kappa, "kind": kind,
+        "dtype": dtype, "spec": spec, "kappa": kappa, "kind": kind, "tree": tree, "theta": theta, "eoff": eoff, "areal": areal,
         "leaf": draw(st.sampled_from(["dense", "mv", "mv_rmv", "all"])),
         "mkind": draw(st.sampled_from(["dense", "mv", "all"])),
         "hflag": draw(st.sampled_from([True, True, False])),
@@ -380,4 +452,5 @@ def case_st(draw, tier="quick", methods=METHODS):
 
 
 def tasks(tier):
-    return [Task("solve", strategy=case_st(tier), run=run_case, examples={"quick": 2400, "thorough": 40000})]
+    return [Task("solve", strategy=case_st(tier), run=run_case, examples={"quick": 2400, "thorough": 40000}),
+            Task("offaxis", strategy=case_st(tier, focus="offaxis"), run=run_case, examples={"quick": 400, "thorough": 6000})]
